@@ -101,6 +101,12 @@ type BCtx struct {
 	Upper   map[string]int64 // atom -> known upper bound
 	parity  map[string]int   // atom -> known parity
 	global  []Lin            // facts L >= 0 valid everywhere in the function (definitions)
+	// scoped: definitional facts that presuppose that the defining instruction was executed without
+	// panicking (x % m implies m >= 1); they hold only at points dominated by that instruction
+	scoped []scopedFact
+	qBlk   *ssa.BasicBlock // block of the current query (set by ProveAt)
+	qIdx   int             // instruction index of the current query inside qBlk
+	qSet   bool
 	minArgs map[string][]Lin // atom of a min(...) result -> its arguments
 	// safeConv: signed->unsigned conversions whose operand is proved non-negative (only those are
 	// treated as the identity; the others are opaque non-negative atoms)
@@ -130,9 +136,9 @@ func NewBCtx(fn *ssa.Function) *BCtx {
 	safe := map[*ssa.Convert]bool{}
 	any := false
 	for _, b := range fn.Blocks {
-		for _, in := range b.Instrs {
+		for ci, in := range b.Instrs {
 			if cv, ok := in.(*ssa.Convert); ok && isIntType(cv.Type()) && isIntType(cv.X.Type()) && isUnsignedType(cv.Type()) && !isUnsignedType(cv.X.Type()) {
-				if c.ProveAt(b, c.Lin(cv.X)) {
+				if c.ProveAtIdx(b, ci, c.Lin(cv.X)) {
 					safe[cv] = true
 					any = true
 				}
@@ -403,6 +409,12 @@ func (c *BCtx) Lin(v ssa.Value) Lin {
 	return atomL(v.Name())
 }
 
+type scopedFact struct {
+	l   Lin
+	blk *ssa.BasicBlock
+	idx int
+}
+
 // definitions records facts that follow from how a value is computed.
 func (c *BCtx) definitions() {
 	add := func(l Lin) {
@@ -466,7 +478,15 @@ func (c *BCtx) definitions() {
 						// added as m - r - 1 >= 0 which implies m >= 1 + r >= 1; a division by m == 0
 						// panics before, which is a separate obligation)
 						c.Lower[x.Name()] = 0
-						add(m.Add(self, -1).Add(konst(1), -1))
+						if l := m.Add(self, -1).Add(konst(1), -1); l.OK {
+							idx := 0
+							for k, q := range b.Instrs {
+								if q == in {
+									idx = k
+								}
+							}
+							c.scoped = append(c.scoped, scopedFact{l, b, idx})
+						}
 					}
 				case token.AND:
 					for _, side := range [2]ssa.Value{x.X, x.Y} {
@@ -1013,6 +1033,18 @@ func (c *BCtx) trivially(l Lin) bool {
 func (c *BCtx) strengthen(cj conj) []Lin {
 	out := append([]Lin{}, cj.facts...)
 	out = append(out, c.global...)
+	for _, sf := range c.scoped {
+		if c.qBlk == nil {
+			continue
+		}
+		if sf.blk == c.qBlk {
+			if sf.idx < c.qIdx {
+				out = append(out, sf.l)
+			}
+		} else if sf.blk.Dominates(c.qBlk) {
+			out = append(out, sf.l)
+		}
+	}
 	// parity lemma: a fact L >= 0 whose atoms all have known parity and which is odd => L >= 1
 	for _, f := range cj.facts {
 		if !f.OK || len(f.C) == 0 || len(f.C) > 2 {
@@ -1094,7 +1126,22 @@ func (c *BCtx) proveIn(goal Lin, facts []Lin) bool {
 }
 
 // ProveAt decides goal >= 0 at block b: it must hold on every way into b.
+// ProveAtIdx proves goal >= 0 just before instruction idx of block b.
+func (c *BCtx) ProveAtIdx(b *ssa.BasicBlock, idx int, goal Lin) bool {
+	old := c.qIdx
+	c.qIdx = idx
+	c.qSet = true
+	defer func() { c.qIdx = old; c.qSet = false }()
+	return c.ProveAt(b, goal)
+}
+
+// ProveAt proves goal >= 0 at the end of block b (or at the position set by ProveAtIdx/IndexSites).
 func (c *BCtx) ProveAt(b *ssa.BasicBlock, goal Lin) bool {
+	c.qBlk = b
+	if !c.qSet {
+		c.qIdx = 1 << 30
+	}
+	defer func() { c.qBlk = nil }()
 	for _, cj := range c.factDNF(b, 3) {
 		facts := c.strengthen(cj)
 		// x != y together with x <= y (or >=) sharpens the inequality by one
@@ -1126,8 +1173,11 @@ type BoundSite struct {
 // IndexSites evaluates every index and slice expression of the function.
 func (c *BCtx) IndexSites() []BoundSite {
 	var out []BoundSite
+	defer func() { c.qIdx = 0; c.qSet = false }()
 	for _, b := range c.Fn.Blocks {
 		for i, in := range b.Instrs {
+			c.qIdx = i
+			c.qSet = true
 			s := Site{c.Fn, b, i, in}
 			var x, idx ssa.Value
 			kind := ""
